@@ -60,6 +60,8 @@ def catalog():
         "intdiv": ("intdiv", 120, "no truncating division of two integer literals in any model unit (double-precision dll units and single-precision OpenCL units)", __import__("sa.rules.extra3", fromlist=["x"]).make_intdiv_rule(("dll", "opencl-f32"))),
         "fastpath": ("fastpath", 55, "equality-guarded special branches of model code agree with the general branch at the same point (all models)", __import__("sa.rules.extra3", fromlist=["x"]).rule_c14_fastpath),
         "gauss-tables": ("gauss-tables", 9, "quadrature tables are Gauss-Legendre rules on [-1, 1] (weights sum to 2, mirror symmetry)", __import__("sa.rules.extra3", fromlist=["x"]).rule_gauss_tables),
+        "q0": ("q0", 18, "Fq of every amplitude model interpreted symbolically at q = 0: F1^2 = F2", __import__("sa.rules.extra3", fromlist=["x"]).rule_c14_q0),
+        "tablebounds": ("tablebounds", 40, "loops of model code over constant tables run 0 <= i < N <= table length, step +1", __import__("sa.rules.extra3", fromlist=["x"]).rule_tablebounds),
         "drivers": ("drivers", 53, "dll/OpenCL/CUDA drivers agree on kernel arguments, result size, read-back, kernel selection and q layout", gpu.rule_drivers),
         "gpu": ("gpu", 2000, "OpenCL configuration of the kernels: work-item bound, carried q-point sums, gated accumulation (all units)", gpu.make_gpu_rule()),
         "eqvol": ("eqvol", 15, "equivalent-volume-sphere radius mode agrees with form_volume in every model", c14.make_c_rule("R-C14-eqvol")),
